@@ -12,6 +12,21 @@ KINDS = ["data", "ext_data", "window_adjust", "eof", "close", "chan_request_repl
          "channel_open", "global_request_reply", "global_request_noreply", "keepalive", "none"]
 
 
+class GateTap(HashTap):
+    """HashTap that can stop one designated user thread inside send_message, i.e. after _send_user_message
+    passed the clear-to-send check (it holds clear_to_send_lock there) and before the packet is written"""
+    gate_thread = None
+    gate_entered = None
+    gate_release = None
+
+    def send_message(self, data):
+        if self.gate_thread is not None and threading.current_thread() is self.gate_thread:
+            self.gate_thread = None
+            self.gate_entered.set()
+            self.gate_release.wait(5.0)
+        return super().send_message(data)
+
+
 class RekeyServer(ns.LogServer):
     def check_channel_request(self, kind, chanid):
         self._l("check_channel_request", kind, chanid)
@@ -25,7 +40,7 @@ class RekeyServer(ns.LogServer):
 def run_scenario(initiator, kind, sender_threads=0, ctt=2.0, deadline=6.0, trigger="explicit"):
     """initiator ("client"/"server") starts a re-exchange while its peer has one message of `kind` in flight.
     Returns an observation record."""
-    sess = ns.Session(server=RekeyServer(), packetizer_class=HashTap)
+    sess = ns.Session(server=RekeyServer(), packetizer_class=GateTap)
     ok = sess.start()
     if ok != (True, True):
         raise RuntimeError("handshake failed")
@@ -96,7 +111,23 @@ def run_scenario(initiator, kind, sender_threads=0, ctt=2.0, deadline=6.0, trigg
                 B.global_request("keepalive@lag.net", wait=False)
         except Exception as e:
             result["exc"]["b_send"] = type(e).__name__
-    if kind != "none":
+    gate = None
+    if kind == "gated_user_send":
+        link.release(b_side)            # nothing of B's is delayed in this scenario
+        gate = {"entered": threading.Event(), "release": threading.Event()}
+        A.packetizer.gate_entered, A.packetizer.gate_release = gate["entered"], gate["release"]
+
+        def gated():
+            try:
+                chA.send(b"gated-user-data")
+            except Exception as e:
+                result["exc"]["gated"] = type(e).__name__
+        gt = threading.Thread(target=gated, daemon=True, name="gated-user")
+        A.packetizer.gate_thread = gt
+        gt.start()
+        if not gate["entered"].wait(3.0):
+            raise RuntimeError("gated user thread never reached the packetizer")
+    elif kind != "none":
         b_send()
         # wait until the message sits in the held queue
         end = time.time() + 2.0
@@ -115,10 +146,12 @@ def run_scenario(initiator, kind, sender_threads=0, ctt=2.0, deadline=6.0, trigg
             rk["exc"] = type(e).__name__
     th = threading.Thread(target=reneg, daemon=True)
     th.start()
-    A.packetizer.wait_out(lambda t, s: False, 0.0)
-    end = time.time() + 2.0
+    end = time.time() + (0.4 if gate else 2.0)
     while not any(x[0] == 20 for x in A.packetizer.out_ids[n_out0:]) and time.time() < end:
         time.sleep(0.002)
+    if gate:
+        # with the lock in place the KEXINIT cannot have been written yet; now let the user packet go
+        gate["release"].set()
     # concurrent user threads on A keep sending
     stop = threading.Event()
     sent_user = []
@@ -170,6 +203,8 @@ def run_scenario(initiator, kind, sender_threads=0, ctt=2.0, deadline=6.0, trigg
             while "global" not in result and "global" not in result["exc"] and time.time() < end:
                 time.sleep(0.01)
             delivered = "global" in result
+        elif kind == "gated_user_send":
+            delivered = chB.recv(64) == b"gated-user-data"
         else:
             delivered = True
     except Exception as e:
